@@ -447,6 +447,7 @@ def run_program(ctx, prog, replay_run=False, warm=False):
                 received.setdefault((lab, ("p", i)), registry.get_hash(v))
             for n, v in kw.items():
                 received.setdefault((lab, ("k", KW.get(n, 99))), registry.get_hash(v))
+        G.release(run.backend)
     # ---- oracle: the property on the real rows
     WARM[0] = warm
     want = rows_of(prog)
@@ -491,7 +492,7 @@ def parse_model(reply):
 def run(ctx):
     rng = ctx.rng
     progs = _fixed_corpus()
-    for _ in range(ctx.n(150, 2000)):
+    for _ in range(ctx.n(110, 1500)):
         progs.append(gen_program(rng))
     results = []
     for i, p in enumerate(progs):
